@@ -838,6 +838,14 @@ def _run_forks(job):
         if not aie:
             obs.append(("path-following points are exactly the complement",
                         z3.BoolVal(sorted(idxs + fidx) == list(range(n)) and not set(idxs) & set(fidx) and got_f == [sol[i] for i in fidx])))
+        # whatever was asked before on this maze object: following points and a later default fork query obey the rule
+        rule = [lat.degree(cell) > (1 if i in (0, n - 1) else 2) for i, cell in enumerate(sol)]
+        obs.append(("path-following points are the cells without more than one onward choice (also after an endpoint-including fork query)",
+                    z3.And(z3.BoolVal(got_f == [sol[i] for i in fidx]), *[z3.BoolVal(i in fidx) == z3.Not(rule[i]) for i in range(n)])))
+        idx2, _c2 = m.get_solution_forking_points()
+        idx2 = [int(i) for i in idx2]
+        obs.append(("a later default fork query on the same object lists exactly the cells with more than one onward choice",
+                    z3.And(*[z3.BoolVal(i in idx2) == rule[i] for i in range(n)])))
         return obs
 
     return run
@@ -860,6 +868,9 @@ def _replay_forks(job, inputs, notes):
     exp0 = [i for i, cell in enumerate(sol) if deg[cell[0]][cell[1]] > (1 if i in (0, n - 1) else 2)]
     if sorted([int(i) for i in fidx] + exp0) != list(range(n)) or [tuple(int(x) for x in row) for row in fcoords] != [sol[int(i)] for i in fidx]:
         return f"path_following_points-wrong | solution {sol}: following {list(fidx)}, forks {exp0}"
+    idx2, _ = m.get_solution_forking_points()
+    if [int(i) for i in idx2] != exp0:
+        return f"forking_points-wrong | solution {sol}: a default query after one with always_include_endpoints={aie} on the same object gives {list(idx2)} expected {exp0}, connection_list={cl.astype(int).tolist()}"
     return None
 
 
